@@ -594,6 +594,8 @@ def m_min(ex, args, kw):
 def m_max(ex, args, kw):
     if len(args) == 1:
         args = ex.iterate_concrete(args[0])
+    if not args:
+        ex.raise_builtin(ValueError, "max() arg is an empty sequence")
     r = args[0]
     for a in args[1:]:
         if isinstance(r, int) and isinstance(a, int):
